@@ -38,7 +38,7 @@ def wellformed(s):
                 # its writer first; further plain dependencies (e.g. on stored calls) are allowed if the writer has them too
                 if not d or d[0] != w or s["side"][w - 1] != i or any(s["side"][p - 1] for p in d[1:]):
                     return False
-                if any(p not in s["args"][w - 1] and p not in s["deps"][w - 1] for p in d[1:]):
+                if s.get("consistent", True) and any(p not in s["args"][w - 1] and p not in s["deps"][w - 1] for p in d[1:]):
                     return False
             elif d:
                 return False
@@ -47,7 +47,7 @@ def wellformed(s):
         sd = s["side"][i - 1]
         if sd:
             # a side writer is an unstored call whose only successor is its dependent source
-            if r != "none" or k != "call" or s["wof"][sd - 1] != i or succ[i] != {sd}:
+            if r not in ("none", "stored") or k != "call" or s["wof"][sd - 1] != i or succ[i] != {sd}:
                 return False
     return True
 
@@ -77,7 +77,7 @@ def to_tla(s, outs=None):
     d = {
         "N": s["N"], "kind": list(s["kind"]), "args": [list(a) for a in s["args"]],
         "deps": [list(a) for a in s["deps"]], "reg": list(s["reg"]), "wof": list(s["wof"]),
-        "side": list(s["side"]), "norm": bool(s.get("norm", False)),
+        "side": list(s["side"]), "norm": bool(s.get("norm", False)), "consistent": bool(s.get("consistent", True)),
         "outs": frozenset(tuple(o) for o in (outs if outs is not None else default_outs(s))),
     }
     return tlc.tla_value(d)
@@ -96,7 +96,7 @@ def for_trace(s):
     return {
         "N": s["N"], "kind": list(s["kind"]), "args": [list(a) for a in s["args"]],
         "deps": [list(a) for a in s["deps"]], "reg": list(s["reg"]), "wof": list(s["wof"]),
-        "side": list(s["side"]), "norm": bool(s.get("norm", False)),
+        "side": list(s["side"]), "norm": bool(s.get("norm", False)), "consistent": bool(s.get("consistent", True)),
     }
 
 
@@ -109,6 +109,7 @@ def random_scenario(rng, n_min=3, n_max=8, norm=None):
     while True:
         N = rng.randint(n_min, n_max)
         kind, args, deps, reg, wof, side, nkw = [], [], [], [], [0] * N, [0] * N, []
+        inconsistent = False
         i = 1
         plan = []
         while i <= N:
@@ -145,10 +146,20 @@ def random_scenario(rng, n_min=3, n_max=8, norm=None):
                 kind.append("call"); args.append([]); deps.append([w] + extra); reg.append("src")
                 wof[idx] = w
                 side[w - 1] = i
-                # what the source depends on, its writer depends on too (the data is produced after it)
-                for e in extra:
-                    if e not in args[w - 1] and e not in deps[w - 1]:
-                        deps[w - 1].append(e)
+                # usually what the source depends on its writer depends on too (the data is produced after it);
+                # otherwise the scenario is marked inconsistent (the repeat-run invariants do not apply to it)
+                if extra and rng.random() < 0.5:
+                    for e in extra:
+                        if e not in args[w - 1] and e not in deps[w - 1]:
+                            deps[w - 1].append(e)
+                elif extra:
+                    inconsistent = True
+                if rng.random() < 0.3:
+                    # the producer of the source's data has a store of its own. Its store is then always written after
+                    # the source's, so the source stays "older than something upstream": like an inconsistent scenario,
+                    # the repeat-run invariants do not apply
+                    reg[w - 1] = "stored"
+                    inconsistent = True
             else:
                 kind.append("call")
                 k = rng.choice([0, 1, 1, 2, 2, 3])
@@ -162,7 +173,7 @@ def random_scenario(rng, n_min=3, n_max=8, norm=None):
         s = {"N": N, "kind": kind, "args": args, "deps": deps, "reg": reg, "wof": wof, "side": side,
              "nkw": nkw, "norm": rng.random() < 0.5 if norm is None else norm,
              "scopes": [rng.choice([[], [], ["a"], ["b"], ["a", 1], ["a", "x"]]) for _ in range(N)],
-             "falsy_stores": rng.random() < 0.2, "reg_seed": rng.choice([0, 0, rng.randrange(1, 1000)])}
+             "consistent": not inconsistent, "falsy_stores": rng.random() < 0.2, "reg_seed": rng.choice([0, 0, rng.randrange(1, 1000)])}
         if ok and wellformed(s) and any(r == "stored" for r in reg):
             return s
 
